@@ -143,6 +143,8 @@ pub struct Edge {
     pub data_inflight: u32,
     /// C16: the single Error with which interval refuses a subscription is sanctioned
     pub allow_ungreeted_error: bool,
+    /// C15 robustness clauses: the harness sink may keep pulling after the end / after disposing
+    pub lenient_sink: bool,
     pub events: Vec<u32>,
 }
 
@@ -266,6 +268,7 @@ impl World {
             pulls_up: 0,
             data_inflight: 0,
             allow_ungreeted_error: false,
+            lenient_sink: false,
             events: vec![],
         });
         g.edges.len() - 1
@@ -475,6 +478,10 @@ fn monitor(g: &mut Inner, edge: EdgeId, ev: EvId, dir: Dir, kind: Kind) {
             },
             (Dir::Down, Kind::Pull) => {
                 found.push((&["C04"], "source-sent-pull", String::new()));
+            },
+            (Dir::Up, Kind::Pull) if e.lenient_sink && matches!(role, Role::Probe(_)) && (e.down_term || e.up_term) => {
+                // a deliberately late Pull of the harness sink (from_iter must shrug it off)
+                e.pulls_up += 1;
             },
             (Dir::Up, Kind::Pull) => {
                 if e.greeted == 0 {
